@@ -139,7 +139,12 @@ func (g *gstate) mint(t *gtok) Op {
 	cap := new(big.Int).Mul(t.max, pow10(t.scale))
 	room := new(big.Int).Sub(cap, t.supply)
 	var amt *big.Int
-	switch r.Weighted(3, 2, 2, 2, 4) {
+	switch r.Weighted(3, 2, 2, 2, 4, 1) {
+	case 5: // far beyond any cap (sdkmath.Int holds 256 bits): refused, never a panic
+		amt = new(big.Int).Lsh(big.NewInt(1), uint(pick(r, 64, 128, 200, 255)))
+		if r.Chance(1, 2) {
+			amt.Sub(amt, big.NewInt(1))
+		}
 	case 0:
 		amt = new(big.Int).Set(room)
 	case 1:
@@ -189,7 +194,9 @@ func (g *gstate) burn(t *gtok) Op {
 	h, b := t.holder(r)
 	var amt *big.Int
 	unit := pow10(t.scale)
-	switch r.Weighted(3, 2, 2, 3, 1) {
+	switch r.Weighted(3, 2, 2, 3, 1, 1) {
+	case 5:
+		amt = new(big.Int).Lsh(big.NewInt(1), uint(pick(r, 128, 255)))
 	case 0: // half a unit
 		amt = new(big.Int).Div(unit, big.NewInt(2))
 	case 1:
@@ -283,6 +290,13 @@ func (g *gstate) transfer(t *gtok) Op {
 
 func (g *gstate) setparams() Op {
 	p := randParams(g.r)
+	if g.r.Chance(1, 12) { // the 195-bit bound of Params.Validate: 2^195-1 accepted, 2^195 refused
+		b := new(big.Int).Lsh(big.NewInt(1), 195)
+		if g.r.Chance(1, 2) {
+			b.Sub(b, big.NewInt(1))
+		}
+		p.Base = b.String()
+	}
 	a := accGov
 	if g.r.Chance(1, 5) {
 		a = g.r.Intn(g.n)
@@ -328,7 +342,35 @@ func genC09(r *lib.Rand, tier string) History {
 		n = 8 + r.Intn(60)
 	}
 	h.Steps = append(h.Steps, g.issue(r.Intn(g.n)))
+	// a quarter of the histories: a second token A, of another owner, whose SYMBOL is the first token B's MIN
+	// UNIT (separate name spaces in the code): edits / transfers name A by that string, mints / burns name B
+	var clashA, clashB *gtok
+	if r.Chance(1, 4) {
+		clashB = g.toks[0]
+		op := g.issue(g.other(clashB.owner))
+		op.Sym = clashB.min
+		clashA = g.toks[len(g.toks)-1]
+		clashA.sym = op.Sym
+		h.Steps = append(h.Steps, op)
+	}
 	for len(h.Steps) < n {
+		if clashB != nil && r.Chance(1, 8) {
+			// cross-token attempts through the shared string: A's owner on B's coins, B's owner on A's record
+			x := pick(r, "1", "1000", new(big.Int).Set(pow10(clashB.scale)).String())
+			switch r.Intn(5) {
+			case 0:
+				h.Steps = append(h.Steps, Op{K: "mint", A: clashA.owner, B: -2, Min: clashB.min, Amt: x})
+			case 1:
+				h.Steps = append(h.Steps, Op{K: "burn", A: clashA.owner, Min: clashB.min, Amt: x})
+			case 2:
+				h.Steps = append(h.Steps, Op{K: "edit", A: clashB.owner, Sym: clashA.sym, Nm: 2, Max: "0", Mintable: pick(r, 1, 2)})
+			case 3:
+				h.Steps = append(h.Steps, Op{K: "transfer", A: clashB.owner, B: g.other(clashB.owner), Sym: clashA.sym})
+			default:
+				h.Steps = append(h.Steps, Op{K: "mint", A: clashB.owner, B: -2, Min: clashA.sym, Amt: x}) // = B's own coin: the owner's regular mint
+			}
+			continue
+		}
 		if r.Chance(1, 14) {
 			h.Steps = append(h.Steps, g.malformed())
 			continue
@@ -493,7 +535,17 @@ func genERC20(r *lib.Rand, tier string) History {
 			g.enable = true
 			continue
 		}
-		switch r.Weighted(2, 9, 8, 6, 1, 1, 2, 1, 5) {
+		switch r.Weighted(2, 9, 8, 6, 1, 1, 2, 1, 5, 1) {
+		case 9: // upgrade of the ERC20 implementation behind the beacon (authority / stranger / bad address)
+			a := accGov
+			if r.Chance(1, 5) {
+				a = r.Intn(g.n)
+			}
+			impl := 1 + r.Intn(3)
+			if r.Chance(1, 10) {
+				impl = -1
+			}
+			h.Steps = append(h.Steps, Op{K: "upgrade", A: a, Nm: impl})
 		case 8: // swap-to-native through the EVM hook
 			var hs []int
 			for _, a := range []int{0, 1, 2, 3, 200, 201} {
@@ -611,6 +663,9 @@ func genERC20(r *lib.Rand, tier string) History {
 			hd, b := t.holder(r)
 			amt := pick(r, big.NewInt(1), big.NewInt(3), r.BigRange(big.NewInt(1), b), r.BigRange(big.NewInt(1), b), new(big.Int).Set(b),
 				r.BigRange(big.NewInt(1), pow10(t.scale)))
+			if r.Chance(1, 12) { // offers the kernel cannot hold in a LegacyDec (panic) or that merely exceed the balance
+				amt = new(big.Int).Lsh(big.NewInt(1), uint(pick(r, 190, 200, 236, 250, 255)))
+			}
 			if amt.Sign() <= 0 {
 				amt = big.NewInt(1)
 			}
@@ -626,7 +681,7 @@ func genERC20(r *lib.Rand, tier string) History {
 		case 4:
 			h.Steps = append(h.Steps, g.setparams())
 		case 5:
-			mode = pick(r, 0, 0, 1, 2, 3, 4, 5, 6, 7)
+			mode = pick(r, 0, 0, 1, 2, 3, 4, 5, 6, 7, 8)
 			h.Steps = append(h.Steps, Op{K: "evmmode", Mode: mode})
 		case 6:
 			if t.mintable {
